@@ -44,6 +44,26 @@ CLAIMS["C06"] = dict(
     technique="abstract interpretation (AFF) of step/solve_implicit/calc_jacobian + AST dominance query + constant folding",
     ref="DESIGN.md section 4 C06")
 
+CLAIMS["C07"] = dict(
+    text=("Clause set decided for all save-time lists, stop criteria and integrators: (1) AFF gives the exact time advance "
+          "of one step for all 15 integrator classes and typestates; (2) timemodel._solve/solve/restart are abstractly "
+          "interpreted path-sensitively over a polyhedral constraint store with heap typestate: the loop invariant "
+          "tsave[isave] >= Qn.time is established by the prologue and re-established (strictly) by every path of a "
+          "generic iteration, every snapshot side step has length in (0, min dt], starts from a fresh copy, is stamped "
+          "tsave[isave] and it = itstart+nit, counters and stop test are ordered correctly, the caller's field is never "
+          "written; (3) fdata copies are deep. Not decided: round-off of time sums; stop/save interplay inside one step."),
+    technique="abstract interpretation: AFF (step time advance) + path-sensitive polyhedral/typestate analysis of the solve driver with an inductive loop invariant + AST structural checks",
+    ref="DESIGN.md section 4 C07, section 2.7")
+CLAIMS["C08"] = dict(
+    text=("Clause set: attributes of the solver object that survive a step (abstract execution of consecutive steps, linear "
+          "and nonlinear models; only the Jacobian cache on linear models is allowed), scratch discipline of self.residual, "
+          "must-write analysis of the discretisation's rhs(), fresh-copy typestate of the main step and iteration stamps "
+          "from the driver analysis, reset/itstart of solve and restart, purity and record format of monitors, "
+          "non-deterministic sources, mutable defaults. gear's _lastresidual is reported as a known finding. "
+          "Not decided: bit-level determinism of numpy."),
+    technique="effect / def-use / typestate analyses on AST and abstract execution (AFF, driver interpreter)",
+    ref="DESIGN.md section 4 C08")
+
 NA_REASONS = {
     "C09": ("runtime invariant of trajectories (range and total variation after every step for all data); its "
             "code-shape premises are owned and decided by C02, C05, C11, C12, C18; the remaining step (flux "
